@@ -523,7 +523,7 @@ impl<'a> TypeVisitor for Run<'a> {
             if let Ok(v0) = typ.query(&input, &proof, &query_rand, &joint_rand, 1) {
                 let m = v0.len();
                 let mut plans: Vec<(usize, Option<(usize, bool)>)> = (0..m).map(|i| (i, None)).collect();
-                let mut push_pair = |i: usize, j: usize, plans: &mut Vec<(usize, Option<(usize, bool)>)>| {
+                let push_pair = |i: usize, j: usize, plans: &mut Vec<(usize, Option<(usize, bool)>)>| {
                     if i != j && i < m && j < m {
                         plans.push((i, Some((j, false))));
                         plans.push((i, Some((j, true))));
